@@ -26,6 +26,9 @@ CLAIMED['C10'] = ('other', 'bounded symbolic execution: for every door and box t
 CLAIMED['C01'] = ('other', 'bounded symbolic execution of GridWorld.functional_step / functional_observation and the three membership predicates: per built-in transition function, per shipped chain and per local reward/termination component, z3 decides on every path that the step returns without raising, that everything the step touched stays inside the declared space, that the reward is a finite float and the flag a boolean; membership predicates are compared with an independent oracle on possibly ill-formed inputs; rejected actions raise ValueError and touch nothing. Closure of arbitrary compositions and histories follows by induction from per-component closure',
                   'trusts z3, the proxy layer, LazyRows/LazyAgent/SymRng; debug membership checks are ON only on the small fully symbolic grids (they scan every cell); scanning rewards are covered in C12', 'DESIGN.md §5 C01')
 
+CLAIMED['C11'] = ('other', 'bounded symbolic execution with every rng draw a symbolic variable (numpy Generator contract only): on every path the final obstacle placement is one of the outcomes of the documented sequential rule and nothing else changes; teleport lands on a same-coloured partner or does not move. The possibility claims are decided by feasibility: the outcomes collected over all explored (solver-satisfiable) paths must equal the oracle set, and a missing outcome is confirmed by exhausting scripted draws on the real function',
+                  'trusts z3, the proxy layer, LazyRows and the SymRng contract stub; no distributional claim; layouts beyond the bounds are outside', 'DESIGN.md §5 C11')
+
 NOT_APPLICABLE = {
     'C19': 'floating-point trigonometric ray kernel (sin/cos/arctan2 via libm/numpy, round-to-nearest of accumulated float steps): no SMT theory for the transcendental part, the only FP-expressible lemma timed out (300 s) on z3 and cvc5, and the remaining inputs form a small finite domain a solver would merely enumerate; see DESIGN.md §5 C19',
 }
